@@ -130,11 +130,13 @@ def run(ctx, obl):
             tgt = sp.get("target:" + k, "?")
             doc[k] = sentinel_json(types.get(tgt, "int"), j)
         shoots = [m["decl"]["name"] for m in s["members"] if m["k"] == "e" and m.get("shoot")]
-        args = ["new"] + (["-getset"] if getset else []) + ["-json", "-tagcase=" + tagcases[i], "-type=" + ",".join(shoots + [s["name"]])]
+        # multi-type run (30%): companion types first (a generic one embedding a shoot type, with restrictions on fields named like T's)
+        cdecls, cnames = newgen.companion(ctx.rng, s, cid) if ctx.rng.random() < 0.3 else ([], [])
+        args = ["new"] + (["-getset"] if getset else []) + ["-json", "-tagcase=" + tagcases[i], "-type=" + ",".join(cnames + shoots + [s["name"]])]
         inst = newgen.instantiate(s)
         oracle = ('package cs\n\nimport "verifcases/vo"\n\nfunc VerifObserve(emit func(string, string)) {\n'
                   '\tvo.ObserveJSON(emit, func() any { return new(%s) }, %s)\n}\n' % (inst, json.dumps(json.dumps(doc))))
-        pc = {"id": cid, "files": {"t.go": newgen.render_file("cs", [s])}, "runs": [{"args": args}], "oracle": {".": oracle},
+        pc = {"id": cid, "files": {"t.go": newgen.render_file("cs", cdecls + [s])}, "runs": [{"args": args}], "oracle": {".": oracle},
               "spec": s, "sexp": json_sexp(cid, s, facts[i], getset, tagcases[i], keys), "cmd": "shoot " + " ".join(args),
               "key": dump([getset, tagcases[i], typedoc_sexp(s.get("typedoc")), members_sexp_json(s), sorted(facts[i])]), "getset": getset}
         b.add(pc)
@@ -163,19 +165,22 @@ def run(ctx, obl):
             d["compile"] = "ok"
             if std:
                 d["umnil"] = "std"
+                # a nil embedded pointer under the standard encoding drops its keys: nothing generated governs that
+                for k in [k for k in d if k.startswith("mpart:")]:
+                    d.pop(k)
             for k in [k for k in d if k.startswith("target:") or k == "needjson"]:
                 d.pop(k)
             # bool leaves: a true is a true
-            if "marshal" in d:
+            for mkey in [k for k in d if k == "marshal" or k.startswith("mpart:")]:
                 parts = []
-                for item in d["marshal"].split(";"):
+                for item in d[mkey].split(";"):
                     if not item:
                         continue
                     key, _, val = item.partition("=")
                     if val.startswith("arg") and val[3:].isdigit() and int(val[3:]) < len(leaf_order) and types[leaf_order[int(val[3:])]] == "bool":
                         val = "argbool"
                     parts.append(key + "=" + val)
-                d["marshal"] = ";".join(parts)
+                d[mkey] = ";".join(parts)
             if "um" in d:
                 parts = []
                 for item in d["um"].split(";"):
